@@ -1,5 +1,6 @@
 import HpoProofs.Hypergeom
 import HpoProofs.Enrich
+import HpoProofs.HypergeomFast
 /-!
 # C06 — enrichment reports exact hypergeometric tail probabilities and fold changes
 
@@ -90,6 +91,16 @@ theorem C06_enrichment (kind : Kind) (bg sample : List Term)
   have ht := sfQ_eq_tail bg.length e.K sample.length e.count hKN hnN hpos
   have hr := sfQ_range bg.length e.K sample.length e.count hKN hnN hpos
   exact ⟨ht, hr.1, hr.2, fold_eq _ _ _ _ hpos hkn hkK hKN⟩
+
+/-! ### what the driver evaluates for large populations -/
+
+/-- The linear-time tail the driver runs (two running binomials updated multiplicatively, leading
+zero terms skipped) is the model's tail, survival function and p-value — for all arguments. -/
+theorem C06_fast_tail_is_model (N K n x cnt i : ℕ) (e : Enr) :
+    tailNumFast K (N - K) n cnt i = tailNum K (N - K) n cnt i ∧
+    sfModelFast N K n x = sfModel N K n x ∧
+    pvalueFast N n e = pvalue N n e :=
+  ⟨tailNumFast_eq K (N - K) n cnt i, sfModelFast_eq N K n x, pvalueFast_eq N n e⟩
 
 /-! ### non-vacuity: the hypotheses are satisfiable on non-trivial instances -/
 
